@@ -23,7 +23,7 @@ WORK = os.path.join(ROOT, ".work")
 EVID = os.path.join(ROOT, "evidence")
 REPLAYS = os.path.join(ROOT, "replays")
 HARNESS = os.path.join(ROOT, "harness")
-DRIVER = os.path.join(LEAN, ".lake", "build", "bin", "whvdriver")
+BIN = os.path.join(LEAN, ".lake", "build", "bin")
 
 ALLOWED_AXIOMS = {"propext", "Classical.choice", "Quot.sound"}
 FORBIDDEN = re.compile(r"\b(sorry|admit|native_decide|bv_decide|implemented_by|unsafe)\b|^axiom\s|maxHeartbeats\s+0\b")
@@ -184,8 +184,8 @@ class Ctx:
             open(os.path.join(self.work, "lake.log"), "w").write(out)
         return rc, out
 
-    def prove(self, extra_modules=()):
-        """Build Whv.Props.<ID>, audit axioms of every theorem in it, scan for forbidden tokens."""
+    def prove(self, families=(), extra_modules=()):
+        """Build Whv.Props.<ID> (+ the driver executables of `families`), audit axioms of every theorem, scan for forbidden tokens."""
         mod = "Whv.Props.%s" % self.pid
         path = os.path.join(LEAN, "Whv", "Props", self.pid + ".lean")
         src = strip_lean_comments(read(path))
@@ -194,8 +194,13 @@ class Ctx:
         prefix = (ns.group(1) + ".") if ns else ""
         names = [prefix + n for n in names]
         self.cov["obligations"] = len(names)
-        self.cov["checker_cmd"] = "cd lean && lake build %s whvdriver && lake env lean .work/%s/Audit.lean (#print axioms per theorem)" % (mod, self.pid)
-        rc, out = self.lake_build([mod] + list(extra_modules) + ["whvdriver"])
+        self.cov["checker_cmd"] = "cd lean && lake build %s && lake env lean .work/%s/Audit.lean (#print axioms per theorem)" % (mod, self.pid)
+        drv = ["drv_" + f for f in families]
+        rc, out = self.lake_build([mod] + list(extra_modules))
+        if drv:
+            rc2, out2 = self.lake_build(drv)
+            if rc2 != 0:
+                self.broken.append(("tie", "driver-build", "lake build %s failed: %s" % (" ".join(drv), "; ".join(re.findall(r"error: ([^\n]*)", out2)[:5])[:600])))
         if rc != 0:
             # find which theorems failed, if the Props module itself is what broke
             errs = re.findall(r"error: ([^\n]*)", out)
@@ -250,7 +255,7 @@ class Ctx:
             repl[os.path.join(REPO, dst)] = os.path.join(HARNESS, src)
         if p2p_stub:
             stub = os.path.join(self.work, "p2p_stub.go")
-            rc, out, dt = sh(["go", "run", os.path.join(ROOT, "tools", "p2pstub", "main.go"),
+            rc, out, dt = sh(["go", "run", ".",
                               os.path.join(REPO, "node/pkg/p2p/p2p.go"), stub], cwd=os.path.join(ROOT, "tools", "p2pstub"),
                              env=dict(GOENV, GOFLAGS=""))
             if rc != 0:
@@ -276,11 +281,12 @@ class Ctx:
     # ---------------------------------------------------------------- driver
     def drive(self, family, cases_path, timeout=1800):
         """Pipe the harness' case file through the Lean driver; returns list of verdict lines."""
-        if not os.path.exists(DRIVER):
-            self.broken.append(("tie", "driver", "whvdriver binary missing (lake build failed?)"))
+        exe = os.path.join(BIN, "drv_" + family)
+        if not os.path.exists(exe):
+            self.broken.append(("tie", "driver", "drv_%s binary missing (lake build failed?)" % family))
             return []
         with open(cases_path) as f:
-            p = subprocess.run([DRIVER, family], stdin=f, stdout=subprocess.PIPE, stderr=subprocess.STDOUT,
+            p = subprocess.run([exe], stdin=f, stdout=subprocess.PIPE, stderr=subprocess.STDOUT,
                                text=True, errors="replace", timeout=timeout)
         out_path = cases_path + ".verdict"
         open(out_path, "w").write(p.stdout)
